@@ -181,6 +181,25 @@ def observe(fd, ref, what, nc, light=False):
         continue
       raise Violation(what + ': get_clients(%r) with an id outside the view did not raise KeyError' % sel, 'KeyError',
                       [bytes(c).hex() for c, _ in got], case=nc)
+  if len(ids) >= 2:
+    # interleaved access on ONE view object: two live iterators must not disturb each other
+    pairs = list(zip(fd.clients(), fd.clients()))
+    require(len(pairs) == len(ids) and all(a[0] == b[0] for a, b in pairs) and sorted(a[0] for a, _ in pairs) == ids,
+            what + ': two interleaved clients() iterators on the same view disagree / are incomplete',
+            [i.hex() for i in ids], [[bytes(a[0]).hex(), bytes(b[0]).hex()] for a, b in pairs], case=nc)
+    it = fd.shuffled_clients(buffer_size=1, seed=3)
+    head = [next(it)[0] for _ in range(1)]
+    middle = [c for c, _ in fd.clients()]
+    rest = [next(it)[0] for _ in range(len(ids) - 1)]
+    require(sorted(head + rest) == ids, what + ': a shuffled pass that was suspended while clients() ran is not a permutation',
+            [i.hex() for i in ids], [bytes(c).hex() for c in head + rest], case=nc)
+    require(sorted(middle) == ids, what + ': clients() run while a shuffled iterator is suspended is incomplete', case=nc)
+    outer = 0
+    for _ in fd.clients():
+      outer += 1
+      for _ in fd.clients():
+        pass
+    require(outer == len(ids), what + ': a nested loop over clients() ended the outer loop early', len(ids), outer, case=nc)
   if ids:
     n = len(ids)
     for buf, seed in ((1, 0), (2, 1), (10, 2)):
